@@ -24,6 +24,7 @@ PYVC_MODULES = [
     "contracts.koszul",
     "contracts.sectors",
     "contracts.constructors",
+    "contracts.fermi_ops",
 ]
 
 BASE = [A_BUILTINS, A_INT, A_TERM, A_NUMPY, A_BOUNDED, A_USER]
